@@ -2,11 +2,11 @@ package sym
 
 import (
 	"fmt"
-	"os"
 	"go/constant"
 	"go/token"
 	"go/types"
 	"math/big"
+	"os"
 	"strings"
 	"sync"
 
@@ -129,42 +129,42 @@ type Interp struct {
 	ex     *Explorer
 
 	// per path
-	pc       []*Term
-	pcSet    map[int32]bool
-	pending  int // pc conjuncts not yet asserted in solver
-	prefix   []int
-	trace    []int
-	pos      int
-	globals  map[*ssa.Global]*Loc
-	pkgInit  map[*ssa.Package]bool
-	steps    int64
-	depth    int
-	draws    []Draw
-	drawSeq  int
-	reached  map[string]bool
-	allocLimit int64 // <0: not armed
-	allocTotal *Term
-	recoverFr *frame
-	curFrame *frame
-	hashApps map[string][]hashApp
-	randState *Term
-	notes    []string
-	maxSymLen int
-	unwind   int
-	harness  string
-	funcCache map[*ssa.Function]intrinsic
-	fresh    int
+	pc             []*Term
+	pcSet          map[int32]bool
+	pending        int // pc conjuncts not yet asserted in solver
+	prefix         []int
+	trace          []int
+	pos            int
+	globals        map[*ssa.Global]*Loc
+	pkgInit        map[*ssa.Package]bool
+	steps          int64
+	depth          int
+	draws          []Draw
+	drawSeq        int
+	reached        map[string]bool
+	allocLimit     int64 // <0: not armed
+	allocTotal     *Term
+	recoverFr      *frame
+	curFrame       *frame
+	hashApps       map[string][]hashApp
+	randState      *Term
+	notes          []string
+	maxSymLen      int
+	unwind         int
+	harness        string
+	funcCache      map[*ssa.Function]intrinsic
+	fresh          int
 	mapOrderNondet bool
-	envHavoc map[string]bool
-	noPanicDepth int
-	inHarnessTop bool
-	insecureTaint map[int32]bool
-	fallbacks map[string]*Solver
-	prefers   []*Term
+	envHavoc       map[string]bool
+	noPanicDepth   int
+	inHarnessTop   bool
+	insecureTaint  map[int32]bool
+	fallbacks      map[string]*Solver
+	prefers        []*Term
 
 	// stats (per worker, cumulative)
-	Instrs int64
-	Paths  int64
+	Instrs  int64
+	Paths   int64
 	encoded map[string]bool
 }
 
